@@ -248,3 +248,45 @@ B("c16-eq-compares-fields", ["C16", "C06"], "models.py", "        return self.__
 B("c16-id-citation-value-hash", ["C16", "C06"], "models.py", '        """IdCitation objects are always considered unique for safety."""\n        return id(self)\n',
   '        """IdCitation objects are always considered unique for safety."""\n        return hash(self.metadata.pin_cite)\n')
 B("c16-sha-unsorted", ["C16", "C06"], "utils.py", "json.dumps(dictionary, sort_keys=True, default=str)", "json.dumps(dictionary, default=str)")
+
+# ------------------------------------------------------------------ C17
+P("seed-C17-1", ["C17"], "seeded/C17-1/patch.diff", rule="R-C17-3")
+B("c17-revert-defined-start", ["C17"], "models.py", "        if (\n            self.full_span_start is not None\n            and self.full_span_start == preceding.full_span_start\n        ):\n",
+  "        if self.full_span_start == preceding.full_span_start:\n", rule="R-C17-3")
+B("c17-copy-unconditionally", ["C17"], "models.py", "            self.metadata.year = preceding.metadata.year\n            self.year = preceding.year\n",
+  "            pass\n        self.metadata.year = self.metadata.year or preceding.metadata.year\n", rule="R-C17-3")
+B("c17-parallel-with-any-earlier", ["C17"], "find.py", "                    pre = cast(FullCaseCitation, citations[-1])  # type: ignore\n", "                    pre = cast(FullCaseCitation, citations[0])  # type: ignore\n", rule="R-C17-3")
+B("c17-default-year", ["C17"], "helpers.py", "    citation.metadata.year = m[\"year\"]\n    if m[\"year\"]:\n        citation.year = get_year(m[\"year\"])\n    if m[\"court\"]:\n",
+  "    citation.metadata.year = m[\"year\"] or \"n.d.\"\n    if m[\"year\"]:\n        citation.year = get_year(m[\"year\"])\n    if m[\"court\"]:\n", rule="R-C17-1")
+B("c17-lowercased-antecedent", ["C17"], "find.py", "        antecedent_guess = m[\"antecedent\"].strip()\n", "        antecedent_guess = m[\"antecedent\"].strip().title()\n", rule="R-C17-1")
+B("c17-metadata-without-extent", ["C17"], "helpers.py", "    citation.full_span_end = citation.span()[1] + m.end()\n    citation.metadata.pin_cite = clean_pin_cite(m[\"pin_cite\"]) or None\n    citation.metadata.publisher = m[\"publisher\"]\n",
+  "    citation.metadata.pin_cite = clean_pin_cite(m[\"pin_cite\"]) or None\n    citation.metadata.publisher = m[\"publisher\"]\n", rule="R-C17-2")
+B("c17-scan-text-from-elsewhere", ["C17"], "helpers.py", "        if forward:\n            text += str(token)\n", "        if forward:\n            text += str(token).upper()\n", rule="R-C17-1")
+B("c17-parenthetical-rewritten", ["C17"], "helpers.py", "            return matched_parenthetical[:i] or None\n", "            return matched_parenthetical[:i].replace(\"\\n\", \" \") or None\n", rule="R-C17-1")
+N("c17-strip-more", ["C17"], "helpers.py", "    citation.metadata.extra = (m[\"extra\"] or \"\").strip() or None\n", "    citation.metadata.extra = (m[\"extra\"] or \"\").strip(\" ,\") or None\n")
+
+# ------------------------------------------------------------------ C03 / C19
+P("seed-C03-1", ["C03"], "seeded/C03-1/patch.diff", rule="R-C03-6")
+P("seed-C03-2", ["C03", "C19"], "seeded/C03-2/patch.diff")
+P("seed-C19-1", ["C19", "C17"], "seeded/C19-1/patch.diff")
+P("seed-C19-2", ["C19"], "seeded/C19-2/patch.diff", rule="R-C19-5")
+B("c03-revert-sort-key", ["C03", "C19"], "helpers.py", "    sorted_citations = sorted(citations, key=lambda citation: citation.span())\n",
+  "    sorted_citations = sorted(\n        citations, key=lambda citation: citation.full_span()\n    )\n", rule="R-C03-5")
+B("c03-no-filter-when-flag", ["C03"], "find.py", "    citations = filter_citations(citations)\n", "    if not remove_ambiguous:\n        citations = filter_citations(citations)\n", rule="R-C03-1")
+B("c03-append-after-filter", ["C03"], "find.py", "    if remove_ambiguous:\n        citations = disambiguate_reporters(citations)\n",
+  "    if remove_ambiguous:\n        citations = disambiguate_reporters(citations)\n    citations.sort(key=lambda c: c.index)\n", rule="R-C03-1")
+B("c03-no-dedupe", ["C03", "C19"], "helpers.py", "    citations = list(\n        {citation.span(): citation for citation in citations}.values()\n    )\n", "    citations = list(citations)\n", rule="R-C03-3")
+B("c03-drop-nonreference", ["C03", "C19"], "helpers.py", "            if isinstance(citation, ReferenceCitation):\n                continue\n\n            # Known overlap case",
+  "            if isinstance(citation, (ReferenceCitation, ShortCaseCitation)):\n                continue\n\n            # Known overlap case")
+B("c03-pop-any-last", ["C03", "C19"], "helpers.py", "                    filtered_citations\n                    and isinstance(filtered_citations[-1], ReferenceCitation)\n                    and overlapping_citations(",
+  "                    filtered_citations\n                    and overlapping_citations(")
+B("c03-sorted-reverse", ["C03"], "helpers.py", "    sorted_citations = sorted(citations, key=lambda citation: citation.span())\n", "    sorted_citations = sorted(citations, key=lambda citation: citation.span(), reverse=True)\n", rule="R-C03-2")
+N("c03-key-span-start", ["C03", "C19"], "helpers.py", "    sorted_citations = sorted(citations, key=lambda citation: citation.span())\n", "    sorted_citations = sorted(citations, key=lambda citation: (citation.span()[0], citation.span()[1]))\n")
+B("c19-markup-read-in-full-extraction", ["C19"], "find.py", "    citation.add_metadata(words)\n\n    return citation\n", "    citation.add_metadata(words)\n    if getattr(words, 'document', None) and words.document.markup_text:\n        citation.metadata.extra = None\n\n    return citation\n", rule="R-C19-1")
+B("c19-reference-without-validity", ["C19"], "find.py", "        if (value := getattr(citation.metadata, key, None))\n        and is_valid_name(value)\n", "        if (value := getattr(citation.metadata, key, None))\n", rule="R-C19-4")
+B("c19-markup-name-unvalidated", ["C19"], "find.py", "            if not is_valid_name(value):\n                continue\n", "", rule="R-C19-4")
+B("c19-offset-not-rebased", ["C19"], "find.py", "            span_start=start + offset,\n            span_end=end + offset,\n", "            span_start=start,\n            span_end=end + offset,\n", rule="R-C19-5")
+B("c19-scan-whole-text", ["C19"], "find.py", "    remaining_text = plain_text[citation.span()[-1] :]\n    offset = citation.span()[-1]\n", "    remaining_text = plain_text[citation.full_span()[0] :]\n    offset = citation.full_span()[0]\n", rule="R-C19-5")
+B("c19-reference-for-any-citation", ["C19"], "find.py", "    if not isinstance(citation, FullCaseCitation):\n        return []\n\n    reference_citations = extract_pincited", "    reference_citations = extract_pincited", rule="R-C19-2")
+B("c19-valid-name-allows-short", ["C19"], "utils.py", "        and len(name) > 2\n", "", rule="R-C19-4")
+B("c19-tokenize-markup", ["C19"], "models.py", "        self.words, self.citation_tokens = tokenizer.tokenize(self.plain_text)\n", "        self.words, self.citation_tokens = tokenizer.tokenize(\n            self.markup_text or self.plain_text\n        )\n", rule="R-C19-1")
